@@ -16,6 +16,7 @@ from ..util import (
     ArrayType1D,
     ArrayType2D,
     _convert_timestamp_to_tz_unaware,
+    _null_value_for_numpy_type,
     _val_to_numpy,
     argsort_index_numeric_only,
     array_split_with_chunk_handling,
@@ -1465,16 +1466,30 @@ class GroupBy:
 
         group_index = self._result_index[self._labels_argsort]
         if mask is not None:
-            group_index = group_index[[len(arr) > 0 for arr in array_splits[0]]]
+            observed = np.array([len(arr) > 0 for arr in array_splits[0]], dtype=bool)
         else:
-            group_index = group_index[group_counts > 0]
+            observed = group_counts > 0
+        group_index = group_index[observed]
 
         if np.ndim(results_per_value[0][0]) == 0:
             # safe to assume it's a scalar value function
             arrays = map(np.array, results_per_value)
             if transform:
                 self._unify_group_key_chunks(keep_chunked=False)
-                arrays = [arr[self.group_ikey] for arr in arrays]
+                # the results are in label order and for the observed groups only: put them
+                # in code order, with a trailing null slot for the rows without a group
+                observed_codes = np.arange(self.ngroups)[self._labels_argsort][observed]
+
+                def broadcast_to_rows(arr):
+                    try:
+                        null = _null_value_for_numpy_type(arr.dtype)
+                    except TypeError:
+                        arr, null = arr.astype(object), None
+                    by_code = np.full(self.ngroups + 1, null, dtype=arr.dtype)
+                    by_code[observed_codes] = arr
+                    return by_code[self.group_ikey]
+
+                arrays = [broadcast_to_rows(arr) for arr in arrays]
                 index = (
                     common_index
                     if common_index is not None
